@@ -945,6 +945,8 @@ class Exec:
                 if self.is_generated_local(tl, None) and depth < MAX_DEPTH:
                     return self.inline(st, tl, [args[0]] + list(tup[1]), depth)
                 sp = c.target_span()
+                # an opaque user closure is invoked *here*: remember how many branch decisions precede the call
+                st.events.append(('usercall', f'closure@{sp}', len(st.conds)))
                 return [(st, ('call', f'closure@{sp}', tuple(tup[1]), None), None)]
             return [(st, ('call', c.key, tuple(args), None), None)]
         # generated local callee: inline
@@ -958,6 +960,9 @@ class Exec:
         folded = self.fold_call(c, args)
         if folded is not None:
             return [(st, folded, None)]
+        if c.lid is not None:
+            # an opaque function of the user's crate is invoked *here*
+            st.events.append(('usercall', c.key, len(st.conds)))
         return [(st, ('call', c.key, tuple(args), None), None)]
 
     def fold_call(self, c, args):
